@@ -4,11 +4,14 @@ package ice
 // violation reporting. Overlaid into /repo at build time (never committed there).
 
 import (
+	"bytes"
 	"crypto/sha256"
 	"encoding/hex"
 	"encoding/json"
 	"fmt"
+	"io"
 	"os"
+	"os/exec"
 	"path/filepath"
 	"runtime"
 	"sort"
@@ -423,3 +426,113 @@ func (nopLogger) Errorf(string, ...any) {}
 type nopFactory struct{}
 
 func (nopFactory) NewLogger(string) logging.LeveledLogger { return nopLogger{} }
+
+// ---------------------------------------------------------------- process sharding for bubble-heavy BE loops
+
+type shardViolation struct {
+	Finding string          `json:"finding"`
+	Msg     string          `json:"msg"`
+	Replay  json.RawMessage `json:"replay"`
+}
+
+type shardSink struct {
+	Violations []shardViolation `json:"violations"`
+	Counters   map[string]int   `json:"counters"`
+	Distinct   map[string]int   `json:"distinct"`
+	Samples    []any            `json:"samples"`
+}
+
+func (s *shardSink) violation(finding, msg string, replay any) {
+	raw, _ := json.Marshal(replay)
+	if len(s.Violations) < 200 {
+		s.Violations = append(s.Violations, shardViolation{finding, msg, raw})
+	}
+	s.Counters["violations_raw"]++
+}
+func (s *shardSink) add(k string, n int) { s.Counters[k] += n }
+func (s *shardSink) note(class string)   { s.Distinct[class]++ }
+
+// runSharded runs body(shard, shards, sink) in VERIF_WORKERS child processes (the same test binary,
+// same check, VERIF_SHARD=name:i/n) and merges the sinks: violations are re-reported through c,
+// counters are added, distinct classes are united (returned).
+func runSharded(c *runCtx, name string, body func(shard, shards int, sink *shardSink)) map[string]int {
+	if env := os.Getenv("VERIF_SHARD"); env != "" {
+		var nm string
+		var i, n int
+		if idx := strings.LastIndex(env, ":"); idx > 0 {
+			nm = env[:idx]
+			fmt.Sscanf(env[idx+1:], "%d/%d", &i, &n) //nolint:errcheck
+		}
+		if nm != name {
+			return nil // a child for another sharded section of the same check
+		}
+		sink := &shardSink{Counters: map[string]int{}, Distinct: map[string]int{}}
+		body(i, n, sink)
+		raw, _ := json.Marshal(sink)
+		f := os.NewFile(3, "sink")
+		_, _ = f.Write(append(raw, '\n'))
+		_ = f.Close()
+		os.Exit(0)
+	}
+	n, _ := strconv.Atoi(os.Getenv("VERIF_WORKERS"))
+	if n <= 0 {
+		n = 8
+	}
+	merged := map[string]int{}
+	var mu sync.Mutex
+	var wg sync.WaitGroup
+	for i := 0; i < n; i++ {
+		wg.Add(1)
+		go func(i int) {
+			defer wg.Done()
+			pr, pw, err := os.Pipe()
+			if err != nil {
+				c.engineError("pipe: %v", err)
+
+				return
+			}
+			cmd := exec.Command(os.Args[0], "-test.run", "^TestVerifMain$", "-test.timeout", "0") //nolint:gosec
+			cmd.Env = append(os.Environ(), fmt.Sprintf("VERIF_SHARD=%s:%d/%d", name, i, n), "GOMAXPROCS=2")
+			cmd.ExtraFiles = []*os.File{pw}
+			var stderr bytes.Buffer
+			cmd.Stderr, cmd.Stdout = &stderr, &stderr
+			if err := cmd.Start(); err != nil {
+				c.engineError("start shard: %v", err)
+
+				return
+			}
+			_ = pw.Close()
+			raw, _ := io.ReadAll(pr)
+			_ = cmd.Wait()
+			var sink shardSink
+			if err := json.Unmarshal(raw, &sink); err != nil {
+				tail := stderr.String()
+				if len(tail) > 2500 {
+					tail = tail[len(tail)-2500:]
+				}
+				c.engineError("[%s] shard %d/%d died without result: %s", name, i, n, tail)
+
+				return
+			}
+			for _, v := range sink.Violations {
+				c.violation(v.Finding, v.Msg, v.Replay)
+			}
+			mu.Lock()
+			for k, v := range sink.Counters {
+				if k != "violations_raw" {
+					c.add(k, v)
+				}
+			}
+			for k, v := range sink.Distinct {
+				merged[k] += v
+			}
+			mu.Unlock()
+			for _, s := range sink.Samples {
+				c.sample(s)
+			}
+		}(i)
+	}
+	wg.Wait()
+
+	return merged
+}
